@@ -650,3 +650,138 @@ Proof.
         specialize (Hcov eq_refl). unfold reorg_covered in *.
         destruct (status_upd_fields uuid h false k') as [_ [Hd Hp]]. rewrite Hd, Hp in Hcov. exact Hcov.
 Qed.
+
+(* ------------------------------------------------------------------------------------------ *)
+(* 5. rebroadcast_stale_txs *)
+
+Definition stale_upd (e : N -> cstatus) (h : N) (k : trk) : trk :=
+  match e (t_penalty k) with
+  | Rejected _ => k
+  | ConfirmedIn hh => restamp k hh true
+  | InMempoolSince hh => restamp k hh false
+  | IrrevocablyResolved => restamp k h false
+  end.
+
+Definition stale_one (e : N -> cstatus) (h : N) (uuid : N * N) (k : trk) : trk :=
+  if uuid_eqb (trk_uuid k) uuid then stale_upd e h k else k.
+
+Definition stale_rows (e : N -> cstatus) (h : N) (us : list (N * N)) (trks : list trk) : list trk :=
+  map (fun k => if mem_uuid (trk_uuid k) us then stale_upd e h k else k) trks.
+
+Definition stale_rejected (e : N -> cstatus) (trks : list trk) (uuid : N * N) : bool :=
+  match find_trk trks uuid with None => false | Some k => status_rejected (e (t_penalty k)) end.
+
+Lemma stale_upd_fields e h k :
+  trk_uuid (stale_upd e h k) = trk_uuid k /\ t_dispute (stale_upd e h k) = t_dispute k /\
+  t_penalty (stale_upd e h k) = t_penalty k.
+Proof. unfold stale_upd. destruct (e (t_penalty k)); repeat split. Qed.
+
+Lemma stale_upd_idem e h k : stale_upd e h (stale_upd e h k) = stale_upd e h k.
+Proof.
+  unfold stale_upd. destruct (e (t_penalty k)) eqn:E; cbn [restamp t_penalty]; rewrite E; reflexivity.
+Qed.
+
+Lemma stale_one_fields e h uuid k :
+  trk_uuid (stale_one e h uuid k) = trk_uuid k /\ t_dispute (stale_one e h uuid k) = t_dispute k /\
+  t_penalty (stale_one e h uuid k) = t_penalty k.
+Proof. unfold stale_one. destruct (uuid_eqb (trk_uuid k) uuid); [apply stale_upd_fields|repeat split]. Qed.
+
+Lemma stale_loop_cons sc h uuid r t rej :
+  stale_loop sc h (uuid :: r) t rej =
+  match find_trk (db_trks t) uuid with
+  | None => Abort S_r_stale_load_tracker_unwrap t
+  | Some k =>
+      let '(s, t1) := send_transaction sc t (t_penalty k) in
+      stale_loop sc h r
+        (match s with
+         | Rejected _ => t1
+         | ConfirmedIn hh => set_trk_status t1 uuid hh true
+         | InMempoolSince hh => set_trk_status t1 uuid hh false
+         | IrrevocablyResolved => set_trk_status t1 uuid h false
+         end) (if status_rejected s then rej ++ [uuid] else rej)
+  end.
+Proof.
+  cbn [stale_loop]. destruct (find_trk (db_trks t) uuid); [|reflexivity].
+  destruct (send_transaction sc t (t_penalty t0)) as [s t1]. destruct s; reflexivity.
+Qed.
+
+Lemma stale_rows_cons e h uuid r trks :
+  stale_rows e h r (map (stale_one e h uuid) trks) = stale_rows e h (uuid :: r) trks.
+Proof.
+  unfold stale_rows. rewrite map_map. apply map_ext. intros k. rewrite mem_uuid_cons. unfold stale_one.
+  destruct (uuid_eqb (trk_uuid k) uuid) eqn:E; [|reflexivity]. cbn [orb].
+  rewrite stale_upd_idem. destruct (mem_uuid _ r); reflexivity.
+Qed.
+
+Lemma stale_rejected_upd e h uuid trks u :
+  stale_rejected e (map (stale_one e h uuid) trks) u = stale_rejected e trks u.
+Proof.
+  unfold stale_rejected. rewrite find_trk_map by (intros k; apply stale_one_fields).
+  destruct (find_trk trks u) as [k|]; [|reflexivity]. cbn [option_map].
+  destruct (stale_one_fields e h uuid k) as [_ [_ ->]]. reflexivity.
+Qed.
+
+Lemma stale_loop_gen sc h e us : forall t rej0,
+  NoDup (map trk_uuid (db_trks t)) ->
+  (forall x, eff_status sc t x = e x) ->
+  (forall u, In u us -> find_trk (db_trks t) u <> None) ->
+  exists t', stale_loop sc h us t rej0 = Ok (rej0 ++ filter (stale_rejected e (db_trks t)) us) t' /\
+    (exists m l, t' = with_carrier (set_db_trks t (stale_rows e h us (db_trks t))) m l) /\
+    carried sc t t' /\
+    (forall u k, In u us -> find_trk (db_trks t) u = Some k ->
+                 aget (car_memo t') (t_penalty k) = Some (e (t_penalty k))).
+Proof.
+  induction us as [|uuid r IH]; intros t rej0 Hnd He Hrows.
+  - exists t. cbn [stale_loop filter]. rewrite app_nil_r. split; [reflexivity|]. split.
+    + exists (car_memo t), (rpc_log t). unfold stale_rows. cbn [mem_uuid existsb]. rewrite map_id. destruct t; reflexivity.
+    + split; [apply carried_refl|intros ? ? []].
+  - rewrite stale_loop_cons. destruct (find_trk (db_trks t) uuid) as [k|] eqn:Ef;
+      [|exfalso; exact (Hrows uuid (or_introl eq_refl) Ef)].
+    destruct (send_spec sc t (t_penalty k)) as [m1 [l1 [Es1 [Hc1 Hm1]]]]. rewrite Es1. rewrite He in *.
+    set (t1 := with_carrier t m1 l1) in *.
+    set (tn := match e (t_penalty k) with
+               | Rejected _ => t1
+               | ConfirmedIn hh => set_trk_status t1 uuid hh true
+               | InMempoolSince hh => set_trk_status t1 uuid hh false
+               | IrrevocablyResolved => set_trk_status t1 uuid h false
+               end).
+    assert (Htn : tn = with_carrier (set_db_trks t (map (stale_one e h uuid) (db_trks t))) m1 l1).
+    { assert (Hone : forall hh c, stale_upd e h k = restamp k hh c ->
+                map (status_upd uuid hh c) (db_trks t) = map (stale_one e h uuid) (db_trks t)).
+      { intros hh c Hu. apply map_ext_in. intros k' Hk'. unfold status_upd, stale_one.
+        destruct (uuid_eqb (trk_uuid k') uuid) eqn:E; [|reflexivity].
+        rewrite (row_of_find _ _ _ _ Hnd Ef Hk' E). symmetry. exact Hu. }
+      unfold tn, stale_upd in *. destruct (e (t_penalty k)) eqn:Ee.
+      - rewrite set_trk_status_eq. change (db_trks t1) with (db_trks t).
+        fold (status_upd uuid h0 true). rewrite (Hone h0 true eq_refl). reflexivity.
+      - rewrite set_trk_status_eq. change (db_trks t1) with (db_trks t).
+        fold (status_upd uuid h0 false). rewrite (Hone h0 false eq_refl). reflexivity.
+      - rewrite set_trk_status_eq. change (db_trks t1) with (db_trks t).
+        fold (status_upd uuid h false). rewrite (Hone h false eq_refl). reflexivity.
+      - replace (map (stale_one e h uuid) (db_trks t)) with (db_trks t); [destruct t; reflexivity|].
+        rewrite <- (map_id (db_trks t)) at 1. apply map_ext_in. intros k' Hk'. unfold stale_one.
+        destruct (uuid_eqb (trk_uuid k') uuid) eqn:E; [|reflexivity].
+        rewrite (row_of_find _ _ _ _ Hnd Ef Hk' E). unfold stale_upd. rewrite Ee. reflexivity. }
+    fold tn. clearbody tn. subst tn.
+    set (tn := with_carrier (set_db_trks t (map (stale_one e h uuid) (db_trks t))) m1 l1).
+    assert (Hcn : carried sc t tn) by (eapply carried_ext; [exact Hc1|reflexivity..]).
+    destruct (IH tn (if status_rejected (e (t_penalty k)) then rej0 ++ [uuid] else rej0)) as [t' [El [[m [l Et]] [Hc Hcov]]]].
+    { change (db_trks tn) with (map (stale_one e h uuid) (db_trks t)). rewrite map_map.
+      erewrite map_ext; [exact Hnd|]. intros k0. apply stale_one_fields. }
+    { intros x. rewrite (ca_eff _ _ _ Hcn). apply He. }
+    { intros u Hu. change (db_trks tn) with (map (stale_one e h uuid) (db_trks t)).
+      rewrite find_trk_map by (intros k0; apply stale_one_fields).
+      destruct (find_trk (db_trks t) u) eqn:E'; [discriminate|]. exfalso. exact (Hrows u (or_intror Hu) E'). }
+    change (db_trks tn) with (map (stale_one e h uuid) (db_trks t)) in *.
+    exists t'. split; [|split; [|split]].
+    + rewrite El. f_equal. cbn [filter]. unfold stale_rejected at 2. rewrite Ef.
+      erewrite (filter_ext_in' (stale_rejected e (map (stale_one e h uuid) (db_trks t)))) by (intros u _; apply stale_rejected_upd).
+      destruct (status_rejected (e (t_penalty k))); [rewrite <- app_assoc|]; reflexivity.
+    + exists m, l. rewrite Et. rewrite stale_rows_cons. reflexivity.
+    + eapply carried_trans; eassumption.
+    + intros u k' [Hu|Hu] Hf.
+      * subst u. assert (k' = k) by congruence. subst k'. apply (ca_memo_mono _ _ _ Hc). exact Hm1.
+      * specialize (Hcov u (stale_one e h uuid k') Hu).
+        rewrite find_trk_map in Hcov by (intros k0; apply stale_one_fields). rewrite Hf in Hcov.
+        specialize (Hcov eq_refl). destruct (stale_one_fields e h uuid k') as [_ [_ Hp]]. rewrite Hp in Hcov. exact Hcov.
+Qed.
